@@ -33,7 +33,7 @@ def named_fn(arg, f, hook=None, tag=None):
 
 
 GRAPHS = ["lin_s", "lin_d_s", "gmrf_d_s", "lmrf_d", "two_lik", "nonlin", "xz_s", "laplace_b", "mean_m", "cmrf_d",
-          "lognormal", "lognormal_cov_s", "lin_sqrtprecF", "reg_d", "lin_geom", "sigdep_x", "direct_param", "cov_sd", "selfnamed", "cov_sdt", "lin_step", "kl_nonlin"]   # ("reg_s" is buildable but RegularizedGaussian has no log-density: not a C01/C11 graph)
+          "lognormal", "lognormal_cov_s", "lin_sqrtprecF", "reg_d", "lin_geom", "sigdep_x", "direct_param", "cov_sd", "selfnamed", "cov_sdt", "lin_step", "kl_nonlin", "gamma_mv"]   # ("reg_s" is buildable but RegularizedGaussian has no log-density: not a C01/C11 graph)
 
 
 def _lg(r, cov):
@@ -205,6 +205,13 @@ def build(rec, hook=None):
         dens = [y, x, s]
         vals = {"y": ydata, "x": xval, "s": pos()}
         out["models"]["A"] = M
+    elif g == "gamma_mv":
+        # TWO callable parameters of one density that share BOTH their arguments (a Gamma given by mean and variance)
+        mm = Gamma(3.0, 1.0, name="m")
+        vv = Gamma(2.0, 2.0, name="v")
+        h = Gamma(shape=lambda m, v: m ** 2 / v, rate=lambda m, v: m / v, geometry=1, name="h")
+        dens = [h, mm, vv]
+        vals = {"h": pos(), "m": pos() + 0.5, "v": pos()}
     elif g == "cov_sd":
         # one callable with TWO hyper-parameter arguments, which may be fixed in separate steps (functools.partial path)
         s = Gamma(1.0, 0.1, name="s")
@@ -275,7 +282,10 @@ def build(rec, hook=None):
         raise ValueError(g)
     # closed forms written out by the harness for the all-Gaussian/Gamma graphs: the reference for the complete assignment
     # that does not pass through any library conditioning code
-    if g == "lin_step":
+    if g == "gamma_mv":
+        out["closed_form"] = lambda v: (_lgam(v["h"], v["m"] ** 2 / v["v"], v["m"] / v["v"]) + _lgam(v["m"], 3.0, 1.0)
+                                        + _lgam(v["v"], 2.0, 2.0))
+    elif g == "lin_step":
         out["closed_form"] = lambda v: (_lg(v["y"] - A3 @ np.repeat(np.asarray(v["x"], float), 3), 1 / v["s"]) + _lg(v["x"], 0.8)
                                         + _lgam(v["s"], 1.0, 0.1))
     elif g == "lin_s":
